@@ -204,7 +204,15 @@ func c13Gen(t *tape.Tape, ownProp func(string) bool) (prelude, recv string, step
 	}
 	recv = fmt.Sprint(1 + t.Intn(9))
 	for i := 0; i < k; i++ {
-		switch t.Pick(4, 3, 1, 1, 1, 1, 1, 1) {
+		wNested := 0
+		if i == k-1 {
+			wNested = 1 // only as the last step: steps applied to an Either are Either sugar, not plain calls
+		}
+		switch t.Pick(4, 3, 1, 1, 1, 1, 1, 1, wNested) {
+		case 8:
+			// a step whose result is itself an Either (nested try): it is a value like any other
+			sl := next()
+			steps = append(steps, c13Step{"lit-nested-try", fmt.Sprintf(".{|x| S(%d); (x + 1).try}", sl), sl})
 		case 7:
 			// a step that succeeds with a nil / falsy value
 			sl := next()
